@@ -146,6 +146,7 @@ func runC06(c *Ctx, tier string) {
 	// S3
 	spillPeekerCopy(c, "C06-S3")
 	runNumericOrderExact(c, "C06-T1")
+	runOrderFloatToIntInRange(c, "C06-T2")
 	runSpillMergeAlwaysFixes(c, "C06-H1")
 	runSortComparatorBuiltOnce(c, "C06-R1")
 }
